@@ -298,22 +298,7 @@ def fixup_chain(w, sc, mpath):
         cur = parent['p']
 
 
-def genuine_oserror(e):
-    fn = getattr(e, 'filename', None)
-    if e.errno is None:
-        return False
-    if fn is None:
-        return False
-    for probe in (lambda: _o['os.stat'](fn), lambda: _o['os.close'](_o['os.open'](fn, os.O_RDONLY | os.O_NONBLOCK)),
-                  lambda: _o['os.listdir'](fn), lambda: _o['open'](fn, 'rb').close()):
-        try:
-            probe()
-        except OSError as e2:
-            if e2.errno == e.errno:
-                return True
-        except ValueError:
-            return False
-    return False
+from ..common import genuine_oserror   # noqa: E402
 
 
 def judge(r, what, violations, counters, cli=None):
@@ -397,9 +382,9 @@ def execute(sc):
         h = run_history(sc, want_idempotence=False)
         vs = [v for v in h['violations'] if v['clause'] == 'I-internal']
         c = dict(h['counters'])
-        for r in h['results']:
-            if r[0] == 'OS' and not genuine_oserror(r[2]):
-                vs.append(viol('oserror-not-genuine', '%s escaped but probing %r does not fail that way' % (r[1], getattr(r[2], 'filename', None)), sig=r[1]))
+        for name, fname, ok in h.get('os_genuine', []):
+            if not ok:
+                vs.append(viol('oserror-not-genuine', '%s escaped but probing %r does not fail that way' % (name, fname), sig=name))
         c['mode.history'] = 1
         return mk_result(h['seams'], vs, True, outcome=h['outcome'], dontcare=h['zones'], counters=c, ops=len(h['results']))
     violations = []
